@@ -1,8 +1,13 @@
 package main
 
 import (
+	"bytes"
 	"encoding/json"
 	"fmt"
+	"go/ast"
+	"go/parser"
+	"go/printer"
+	"go/token"
 	"os"
 	"os/exec"
 	"path/filepath"
@@ -26,6 +31,7 @@ type ReplayCase struct {
 	Quick  bool        `json:"quick"`
 	Seed   uint64      `json:"seed"`
 	Repeat int         `json:"repeat,omitempty"`
+	Repl   map[string]string `json:"replaced,omitempty"` // function replacements of the obligation (full name -> harness function)
 }
 
 const replayTestTmpl = `package %s
@@ -43,6 +49,7 @@ func TestVerifReplay(t *testing.T) {
 		seed  uint64
 		rep   int
 		vals  []uint64
+		repl  []string
 	}{
 %s	}
 	for _, c := range cases {
@@ -57,6 +64,10 @@ func TestVerifReplay(t *testing.T) {
 				verifVals = c.vals
 				verifPos = 0
 				verifQuickFlag, verifSeedVal = c.quick, c.seed
+				verifReplaceOn = map[string]bool{}
+				for _, r := range c.repl {
+					verifReplaceOn[r] = true
+				}
 				switch c.entry {
 %s				default:
 					fmt.Printf("VERIF-REPLAY %%s noentry\n", c.id)
@@ -102,6 +113,10 @@ func runReplays(cases []*ReplayCase, verbose bool) error {
 			for _, v := range c.Vals {
 				fmt.Fprintf(&rows, "%#x,", v.Bits)
 			}
+			rows.WriteString("}, []string{")
+			for _, full := range sortedStrKeys(c.Repl) {
+				fmt.Fprintf(&rows, "%q,", full)
+			}
 			rows.WriteString("}},\n")
 			entries[c.Entry] = true
 		}
@@ -112,6 +127,17 @@ func runReplays(cases []*ReplayCase, verbose bool) error {
 		sort.Strings(es)
 		for _, e := range es {
 			fmt.Fprintf(&sw, "\t\t\t\tcase %q:\n\t\t\t\t\t%s()\n", e, e)
+		}
+		// function replacements of the obligations: the replaced functions of this package get a
+		// forwarder that calls the harness function while the replacement is switched on
+		allRepl := map[string]string{}
+		for _, c := range cs {
+			for k, v := range c.Repl {
+				allRepl[k] = v
+			}
+		}
+		if err := nativeReplacements(p, allRepl, ov); err != nil {
+			return err
 		}
 		ov[filepath.Join(repoDir, p, "zz_verif_replay_test.go")] = []byte(fmt.Sprintf(replayTestTmpl, name, rows.String(), sw.String()))
 		// materialise overlay
@@ -209,4 +235,173 @@ func replayConfirms(c *ReplayCase) bool {
 		return strings.HasPrefix(c.Result, "panic:") && !strings.Contains(c.Result, "VERIF-ASSUME-FAILED") && !strings.Contains(c.Result, "VERIF-REPLAY-EXHAUSTED") && !strings.Contains(c.Result, "VERIF-ASSERT-FAILED")
 	}
 	return false
+}
+
+func sortedStrKeys(m map[string]string) []string {
+	var ks []string
+	for k := range m {
+		ks = append(ks, k)
+	}
+	sort.Strings(ks)
+	return ks
+}
+
+// nativeReplacements rewrites (in the overlay only) the source files of package dir p that
+// declare a replaced function: the declaration is renamed and a forwarder with the original
+// name calls the harness function when verifReplaceOn[full name] is set, else the original.
+// Replacements of functions of other packages are not applied natively (the real function runs).
+func nativeReplacements(p string, repl map[string]string, ov map[string][]byte) error {
+	if len(repl) == 0 {
+		return nil
+	}
+	pkgPath := modPath + "/" + p
+	type target struct{ full, recv, name, harness string }
+	var targets []target
+	for _, full := range sortedStrKeys(repl) {
+		recv, name, path := "", "", ""
+		if strings.HasPrefix(full, "(") {
+			i := strings.Index(full, ").")
+			if i < 0 {
+				continue
+			}
+			inner := strings.TrimPrefix(full[1:i], "*")
+			j := strings.LastIndex(inner, ".")
+			if j < 0 {
+				continue
+			}
+			path, recv, name = inner[:j], inner[j+1:], full[i+2:]
+		} else {
+			j := strings.LastIndex(full, ".")
+			if j < 0 {
+				continue
+			}
+			path, name = full[:j], full[j+1:]
+		}
+		if path != pkgPath {
+			continue
+		}
+		targets = append(targets, target{full, recv, name, repl[full]})
+	}
+	if len(targets) == 0 {
+		return nil
+	}
+	dir := filepath.Join(repoDir, p)
+	ents, err := os.ReadDir(dir)
+	if err != nil {
+		return err
+	}
+	for _, e := range ents {
+		fn := e.Name()
+		if e.IsDir() || !strings.HasSuffix(fn, ".go") || strings.HasSuffix(fn, "_test.go") {
+			continue
+		}
+		path := filepath.Join(dir, fn)
+		if _, harness := ov[path]; harness {
+			continue
+		}
+		src, err := os.ReadFile(path)
+		if err != nil {
+			return err
+		}
+		fset := token.NewFileSet()
+		file, err := parser.ParseFile(fset, path, src, parser.ParseComments)
+		if err != nil {
+			return err
+		}
+		var extra strings.Builder
+		for _, d := range file.Decls {
+			fd, ok := d.(*ast.FuncDecl)
+			if !ok || fd.Body == nil {
+				continue
+			}
+			rt := ""
+			if fd.Recv != nil && len(fd.Recv.List) == 1 {
+				t := fd.Recv.List[0].Type
+				if st, ok := t.(*ast.StarExpr); ok {
+					t = st.X
+				}
+				if id, ok := t.(*ast.Ident); ok {
+					rt = id.Name
+				}
+			}
+			for _, tg := range targets {
+				if tg.name != fd.Name.Name || tg.recv != rt {
+					continue
+				}
+				extra.WriteString(forwarderFor(fset, fd, tg.full, tg.harness))
+				fd.Name.Name = tg.name + "__verifOrig"
+			}
+		}
+		if extra.Len() == 0 {
+			continue
+		}
+		var buf bytes.Buffer
+		if err := printer.Fprint(&buf, fset, file); err != nil {
+			return err
+		}
+		buf.WriteString("\n" + extra.String())
+		ov[path] = buf.Bytes()
+	}
+	return nil
+}
+
+func forwarderFor(fset *token.FileSet, fd *ast.FuncDecl, full, harness string) string {
+	expr := func(e ast.Expr) string {
+		var b bytes.Buffer
+		printer.Fprint(&b, fset, e)
+		return b.String()
+	}
+	var sb strings.Builder
+	sb.WriteString("func ")
+	var args []string
+	callOrig := fd.Name.Name + "__verifOrig"
+	if fd.Recv != nil && len(fd.Recv.List) == 1 {
+		sb.WriteString("(vr " + expr(fd.Recv.List[0].Type) + ") ")
+		args = append(args, "vr")
+		callOrig = "vr." + callOrig
+	}
+	sb.WriteString(fd.Name.Name + "(")
+	var pass []string
+	k := 0
+	for _, f := range fd.Type.Params.List {
+		n := len(f.Names)
+		if n == 0 {
+			n = 1
+		}
+		for i := 0; i < n; i++ {
+			name := fmt.Sprintf("v%d", k)
+			k++
+			if k > 1 {
+				sb.WriteString(", ")
+			}
+			sb.WriteString(name + " " + expr(f.Type))
+			if _, variadic := f.Type.(*ast.Ellipsis); variadic {
+				name += "..."
+			}
+			pass = append(pass, name)
+		}
+	}
+	sb.WriteString(") ")
+	ret := ""
+	if fd.Type.Results != nil && len(fd.Type.Results.List) > 0 {
+		ret = "return "
+		var rs []string
+		for _, f := range fd.Type.Results.List {
+			n := len(f.Names)
+			if n == 0 {
+				n = 1
+			}
+			for i := 0; i < n; i++ {
+				rs = append(rs, expr(f.Type))
+			}
+		}
+		sb.WriteString("(" + strings.Join(rs, ", ") + ") ")
+	}
+	hargs := append(append([]string{}, args...), pass...)
+	tail := "\n\t\treturn"
+	if ret != "" {
+		tail = ""
+	}
+	fmt.Fprintf(&sb, "{\n\tif verifReplaceOn[%q] {\n\t\t%s%s(%s)%s\n\t}\n\t%s%s(%s)\n}\n", full, ret, harness, strings.Join(hargs, ", "), tail, ret, callOrig, strings.Join(pass, ", "))
+	return sb.String()
 }
